@@ -15,6 +15,7 @@ environments), not proved: the model cannot exhibit a hasher seed.
 -/
 import Complgen.Proofs.Subset
 import Complgen.Gen.Nondet
+import Complgen.Proofs.EndToEnd
 namespace Complgen.Props.C10
 open Complgen
 
@@ -43,5 +44,19 @@ theorem nondet_sources_ok :
 `PartialEq` is how equality and hash of `InpInternPool` drifted apart (keys of a randomly seeded
 `IndexSet`; repaired in 131db37).  Decided on the inventory regenerated from the current source. -/
 theorem hash_impls_paired : (Gen.handHash.all fun t => Gen.handEq.contains t) = true := by decide
+
+/-- … and conversely no type compares by hand while its `Hash` is derived: a hand-written equality that
+ignores a field next to a derived hash that includes it makes set membership depend on the random
+seed of the process (keys that compare equal land in different buckets except by chance). -/
+theorem eq_impls_paired :
+    (Gen.handEq.all fun t => Gen.handHash.contains t || !Gen.derivedHash.contains t) = true := by decide
+
+/-- the minimiser's result does not depend, in size or language, on the iteration order of its hash
+containers: both results are smallest automata of the same language (`Proofs/HopcroftCard.lean`) -/
+theorem minimised_size_schedule_irrelevant (σ₁ σ₂ : Schedule) (a m₁ m₂ : Auto) (hwf : Min.WF a)
+    (hco : Min.CoAcc a) (hacc : Min.Access a) (h₁ : Min.minimize σ₁ a = some m₁)
+    (h₂ : Min.minimize σ₂ a = some m₂) :
+    m₁.states.length = m₂.states.length ∧ ∀ w, m₁.accepts w = m₂.accepts w :=
+  Pipeline.minimize_size_schedule_irrelevant σ₁ σ₂ a m₁ m₂ hwf hco hacc h₁ h₂
 
 end Complgen.Props.C10
